@@ -300,7 +300,7 @@ def deserX (XO : XOracles) (opts : DeserOpts) (ign : Bool) : XDecl → PyVal →
   | .mapStr x, v =>
     if v.isNone && ign then .ok v
     else dMap (mapE (fun (kv : PyVal × PyVal) =>
-      bindE (deserX XO { opts with keepUndefined := true } false x kv.2) fun v' =>
+      bindE (deserX XO opts false x kv.2) fun v' =>
       bindE (dValidated (vString XO.base none none none kv.1) kv.1) fun k' => .ok (k', v'))) v
   | .tuplePos xs, v =>
     if v.isNone && ign then .ok v
